@@ -339,7 +339,7 @@ def blend(
             f"Can only blend a list of triangles, not a type {type(triangles)}."
         )
 
-    if len(triangles) <= 1 and weights is not None and weights[0] != 1.0:
+    if len(triangles) <= 1 and isinstance(weights, list) and weights[0] != 1.0:
         raise ValueError(
             f"Blending single triangles requires weight = [1.0] not {weights}."
         )
